@@ -1,6 +1,7 @@
 package main
 
 import (
+	"encoding/hex"
 	"encoding/json"
 	"fmt"
 	"go/types"
@@ -152,7 +153,7 @@ func replayOnRealCode(run *checkRun, o *Obligation, data map[string]interface{})
 	res := fn.Signature.Results()
 	for i := 0; i < res.Len(); i++ {
 		b, isBasic := res.At(i).Type().Underlying().(*types.Basic)
-		if !isBasic || !(b.Kind() == types.Float64 || b.Info()&types.IsInteger != 0 || b.Kind() == types.Bool) {
+		if !isBasic || !(b.Kind() == types.Float64 || b.Info()&types.IsInteger != 0 || b.Kind() == types.Bool || b.Kind() == types.String) {
 			data["replay"] = "not attempted: result is not a scalar"
 			return false
 		}
@@ -172,6 +173,8 @@ func replayOnRealCode(run *checkRun, o *Obligation, data map[string]interface{})
 			prints = append(prints, fmt.Sprintf(`fmt.Printf("GOVC-RES %d f %%016x\n", math.Float64bits(float64(r%d)))`, i, i))
 		case b.Kind() == types.Bool:
 			prints = append(prints, fmt.Sprintf(`fmt.Printf("GOVC-RES %d b %%v\n", bool(r%d))`, i, i))
+		case b.Kind() == types.String:
+			prints = append(prints, fmt.Sprintf(`fmt.Printf("GOVC-RES %d s %%x\n", string(r%d))`, i, i))
 		default:
 			prints = append(prints, fmt.Sprintf(`fmt.Printf("GOVC-RES %d i %%d\n", int64(r%d))`, i, i))
 		}
@@ -231,6 +234,9 @@ func TestGovcReplay(t *testing.T) {
 	observed := map[string]string{}
 	for _, line := range strings.Split(out, "\n") {
 		f := strings.Fields(line)
+		if len(f) == 3 && f[0] == "GOVC-RES" && f[2] == "s" {
+			f = append(f, "")
+		}
 		if len(f) == 4 && f[0] == "GOVC-RES" {
 			i, _ := strconv.Atoi(f[1])
 			if i >= len(o.retTerms) {
@@ -244,6 +250,10 @@ func TestGovcReplay(t *testing.T) {
 			case "b":
 				resFix = append(resFix, fmt.Sprintf("(assert (= %s %s))", o.retTerms[i], f[3]))
 				observed[fmt.Sprint(i)] = f[3]
+			case "s":
+				raw, _ := hex.DecodeString(f[3])
+				resFix = append(resFix, fmt.Sprintf("(assert (= %s %s))", o.retTerms[i], tr.strLit(string(raw))))
+				observed[fmt.Sprint(i)] = fmt.Sprintf("%q", string(raw))
 			case "i":
 				n, _ := strconv.ParseInt(f[3], 10, 64)
 				resFix = append(resFix, fmt.Sprintf("(assert (= %s %s))", o.retTerms[i], intLit(n)))
@@ -261,7 +271,7 @@ func TestGovcReplay(t *testing.T) {
 		return false
 	}
 	// does the observed behaviour violate the clause?  (inputs fixed, output fixed, clause negated)
-	q := tr.queryText(o, false)
+	q := tr.queryText2(o, false, o.relaxed)
 	cut := strings.LastIndex(q, "(assert (not ")
 	q2 := q[:cut] + strings.Join(fixes, "\n") + "\n" + strings.Join(resFix, "\n") + "\n" + q[cut:]
 	r := run.pool.solve(q2, 30, nil)
